@@ -11,6 +11,7 @@ import RLV.Model.Menu
 import RLV.Model.MenuSel
 import RLV.Model.Scan
 import RLV.Model.HistWrite
+import RLV.Model.HistFile
 import RLV.Model.Parser
 import RLV.Model.Sel
 import RLV.Model.Term
@@ -138,6 +139,17 @@ def step (line : String) : String :=
     let sorted := out.toArray.qsort (fun a b => showNats a.1 < showNats b.1) |>.toList
     "ok " ++ ";".intercalate (sorted.map fun e =>
       s!"{showNats e.1}:{if e.2.entries.isEmpty then "-" else ",".intercalate (e.2.entries.map fun x => if x.isEmpty then "e" else showNats x)}")
+  | ["hwritef", file, line, rec] =>
+    -- fileHistory.Write on a file image; `rec` is the record the real encoder produced for this block
+    showNats (HistFile.writeRec (fun _ => parseNats rec) HistW.trim (parseNats file) (parseNats line))
+  | ["hopen", file, table] =>
+    -- openHist on a file image; the decoder is the table piece=block the harness obtained from encoding/json
+    let tbl : List (List Nat × List Nat) := (parseList table ";").filterMap (fun f =>
+      match f.splitOn "=" with
+      | [p, b] => some (parseNats p, parseNats b)
+      | _ => none)
+    let es := HistFile.openHist (fun p => tbl.lookup p) (parseNats file)
+    if es.isEmpty then "-" else ",".intercalate (es.map showNats)
   | ["rnext", rs] =>
     let r : Inputrc.RS := (parseNats rs).toArray
     match Inputrc.scanLine r with
